@@ -281,6 +281,33 @@ pub proof fn lemma_queue_front<T>(q: Seq<VectorDiff<T>>, d: VectorDiff<T>, rest:
         assert(all_applicable(rest, v1) == (all_applicable(rest.drop_last(), v1) && applicable(rest.last(), apply_all(rest.drop_last(), v1))));
     }
 }
+// the same for the bound on every prefix (C15): the state before the first diff counts, then the rest from the next state
+pub proof fn lemma_prefixes_front<T>(q: Seq<VectorDiff<T>>, d: VectorDiff<T>, rest: Seq<VectorDiff<T>>, v: Seq<T>, b: int)
+    requires q =~= seq![d] + rest
+    ensures prefixes_bounded(q, v, b) == (v.len() <= b && prefixes_bounded(rest, apply(d, v), b))
+    decreases rest.len()
+{
+    let e = Seq::<VectorDiff<T>>::empty();
+    let v1 = apply(d, v);
+    lemma_queue_front(q, d, rest, v);
+    assert(prefixes_bounded(q, v, b) == (prefixes_bounded(q.drop_last(), v, b) && apply_all(q, v).len() <= b));
+    if rest.len() == 0 {
+        assert(q.drop_last() =~= e);
+        assert(prefixes_bounded(e, v, b) == (v.len() <= b));
+        assert(prefixes_bounded(rest, v1, b) == (v1.len() <= b));
+        assert(apply_all(rest, v1) == v1);
+    } else {
+        lemma_prefixes_front(q.drop_last(), d, rest.drop_last(), v, b);
+        assert(prefixes_bounded(rest, v1, b) == (prefixes_bounded(rest.drop_last(), v1, b) && apply_all(rest, v1).len() <= b));
+    }
+}
+pub proof fn lemma_prefixes_first<T>(q: Seq<VectorDiff<T>>, v: Seq<T>, b: int)
+    requires prefixes_bounded(q, v, b)
+    ensures v.len() <= b
+    decreases q.len()
+{
+    if q.len() > 0 { lemma_prefixes_first(q.drop_last(), v, b); }
+}
 pub broadcast group diff_lemmas {
     lemma_apply_len1, lemma_applicable_len1, lemma_emittable_len1, lemma_push_fronts_only, lemma_push_fronts_only_c, lemma_push_fronts_only_e,
     lemma_prefixes_rep_pop_front, lemma_prefixes_rep_pop_back, lemma_prefixes_add_push_fronts_b,
